@@ -3,7 +3,7 @@
    JournalFacts.v (and NamesFacts.v for the file-name codec). *)
 From Coq Require Import List NArith Sorted.
 From RaftLog Require Import Base.Bytes Model.Types Model.Codec Model.Cache Model.Core Model.Recover Model.Run.
-From RaftLog Require Import Proofs.CodecFacts Proofs.JournalDisk Proofs.JournalChunk Proofs.JournalFacts.
+From RaftLog Require Import Model.Names Proofs.CodecFacts Proofs.JournalDisk Proofs.JournalChunk Proofs.JournalFacts Proofs.NamesFacts.
 Import ListNotations.
 Local Open Scope N_scope.
 
@@ -79,6 +79,17 @@ Theorem C11_on_disk_size : forall y, journal_wf y ->
             (closed_ids (y_core y) ++ [ck_id (k_open (y_core y))])).
 Proof. exact JournalFacts.C11_on_disk_size. Qed.
 
+(* the file-name encoding, for all u64 offsets: it round-trips through the parser, is
+   injective, and numeric order of offsets is lexicographic order of names *)
+Theorem C11_name_roundtrip : forall n, (n <= U64MAX)%N ->
+  parse_chunk_file_name (chunk_file_name n) = Some n.
+Proof. exact NamesFacts.C11_name_roundtrip. Qed.
+Theorem C11_name_order : forall n m, (n <= U64MAX)%N -> (m <= U64MAX)%N -> (n < m)%N ->
+  bytes_ltb (chunk_file_name n) (chunk_file_name m) = true.
+Proof. exact NamesFacts.C11_name_order. Qed.
+
+Print Assumptions C11_name_roundtrip.
+Print Assumptions C11_name_order.
 Print Assumptions C11_invariant.
 Print Assumptions C11_write_appends.
 Print Assumptions C11_structure.
